@@ -25,7 +25,7 @@ PROJ_BUDGET = 5000
 
 
 def plan(tier, seed):
-    return common.plan_shards(tier, seed, n_quick=300, n_thorough=1500, budget_quick=30, budget_thorough=300)
+    return common.plan_shards(tier, seed, n_quick=300, n_thorough=3000, budget_quick=30, budget_thorough=300)
 
 
 def gates(tier):
